@@ -536,6 +536,11 @@ func (ec *evalCtx) applyContract(c *Contract, fn *types.Func, call *ast.CallExpr
 				}
 			}
 		}
+		// a conjunct about the callee's own ghost bindings (let NAME = ... @ point inside its body) says nothing a
+		// caller can use: it is checked when the callee is verified and left out here
+		if mentionsGhostLet(en) {
+			continue
+		}
 		ec.st.Assume(post.evalBool(en))
 	}
 	for i := range results {
@@ -571,9 +576,12 @@ func isAssignable(e ast.Expr) bool {
 }
 
 func (ec *evalCtx) tryEval(e ast.Expr) (v Value) {
+	// an evaluation that gives up half way must not leave its short-circuit guards (a && b, implies) behind
+	ng := len(ec.st.guards)
 	defer func() {
 		if r := recover(); r != nil {
 			if _, ok := r.(unsupportedErr); ok {
+				ec.st.guards = ec.st.guards[:ng]
 				v = nil
 				return
 			}
@@ -1053,4 +1061,17 @@ func (ec *evalCtx) havocReachable(recv Value, args []Value) {
 			delete(ec.st.ghost, k)
 		}
 	}
+}
+
+func mentionsGhostLet(e ast.Expr) bool {
+	found := false
+	ast.Inspect(e, func(n ast.Node) bool {
+		if call, ok := n.(*ast.CallExpr); ok {
+			if id, ok := call.Fun.(*ast.Ident); ok && id.Name == "ghost" {
+				found = true
+			}
+		}
+		return !found
+	})
+	return found
 }
